@@ -2,7 +2,7 @@
 # development helper: run one (property, run index) N times under different
 # GOMAXPROCS and report how many distinct decision logs came out.
 # usage: detrepro.sh PROP IDX [N] [SEED]
-prop=$1; idx=$2; n=${3:-12}; seed=${4:-1}
+prop=$1; idx=$2; n=${3:-12}; seed=${4:-20260922}
 cd /dev/shm/verif-dev || exit 2
 rm -f det-$prop-*.log
 (
